@@ -8,10 +8,12 @@
                                          obs = (validIn validOut out ((index strlen valid exists isString) ...))
      30+k : DecodeToJson of scanner k (k = 1..5) on a list of cases sharing one Root (Model/Decoders/ToJson.v)
      36 : the json decoder against encoding/json (ToJson.v json_roundtrip_run)
+     9 jsonCutKeep (limit #content) | 37 jsonDecoder.Decode args | 38 protobuf | 40 decoder.New | 41 constructor params (Params.v) | 50 / 51 Pipeline.In
+     (Model/Decoders/PipeIn.v, Select.v)
    No proofs here. *)
 From Verif Require Import Base.Sx Base.GoSem Model.Decoders.Common Model.Decoders.Cri Model.Decoders.Postgres
   Model.Decoders.Nginx Model.Decoders.Syslog Model.Decoders.SyslogRfc3164 Model.Decoders.SyslogRfc5424
-  Model.Decoders.Csv Model.Decoders.JsonCut Model.Decoders.ToJson.
+  Model.Decoders.Csv Model.Decoders.JsonCut Model.Decoders.ToJson Model.Decoders.Select Model.Decoders.PipeIn Model.Decoders.Params.
 
 Definition scan_model (k : Z) (case : sx) : option sx :=
   match k, case with
@@ -25,10 +27,11 @@ Definition scan_model (k : Z) (case : sx) : option sx :=
   | 4, SL [ff; sf; SB data] =>
       match as_bool ff, as_bool sf with
       | Some ff, Some sf => Some (s5424_model ff sf data) | _, _ => None end
-  | 5, SL [SZ delim; SZ ncols; cm; SB data] =>
-      match as_bool cm with
-      | Some cm => if (0 <? delim) && (delim <? 256) then Some (csv_model (Z.to_N delim) ncols cm data) else None
-      | None => None end
+  | 5, SL (SZ delim :: SZ ncols :: SZ mode :: SB data :: _) =>
+      (* mode: 0 default | 1 continue | 2 fatal | 3 an unknown word; an optional fifth member is the `prefix` option,
+         which only the Root side (ToJson.v) reads *)
+      if (0 <? delim) && (delim <? 256) && (0 <=? mode) && (mode <=? 3)
+      then Some (csv_model_mode (Z.to_N delim) ncols mode data) else None
   | _, _ => None
   end.
 
@@ -157,6 +160,13 @@ Definition json_cut_run (many : bool) (case obs : sx) : verdict :=
 Definition c12_entry (which : Z) (case obs : sx) : verdict :=
   if which =? 7 then json_cut_run false case obs
   else if which =? 8 then json_cut_run true case obs
+  else if which =? 9 then json_keep_run case obs
+  else if which =? 37 then json_args_run case obs
+  else if which =? 38 then proto_run case obs
+  else if which =? 40 then select_run case obs
+  else if which =? 41 then params_run case obs
+  else if which =? 50 then pipe_in_run case obs
+  else if which =? 51 then pipe_flags_run case obs
   else if (0 <=? which) && (which <? 10) then
     match scan_model which case with Some m => scan_verdict m obs | None => BadCase end
   else if (10 <=? which) && (which <? 20) then
